@@ -182,6 +182,72 @@ type tenv struct {
 	// scalar fields of the receiver that become extra parameters: Go expression text -> type; used records the order of first use
 	fields map[string]ty
 	used   []string
+	// mutable state of a method translated as a state transformer: Go expression text (s.Field, len(s.Table), s.Table[index])
+	// -> variable name; order lists them as they appear in the result tuple; stateRet: a bare return yields that tuple
+	state    map[string]string
+	stateTy  map[string]ty
+	order    []string
+	stateRet bool
+}
+
+// exprKey: a printable key for the few expression forms that name state
+func exprKey(x ast.Expr) string {
+	switch v := x.(type) {
+	case *ast.Ident:
+		return v.Name
+	case *ast.SelectorExpr:
+		return exprKey(v.X) + "." + v.Sel.Name
+	case *ast.IndexExpr:
+		return exprKey(v.X) + "[" + exprKey(v.Index) + "]"
+	case *ast.CallExpr:
+		if id, ok := v.Fun.(*ast.Ident); ok && len(v.Args) == 1 {
+			return id.Name + "(" + exprKey(v.Args[0]) + ")"
+		}
+	}
+	return fmt.Sprintf("%T", x)
+}
+
+func (e *tenv) stateTuple() string {
+	parts := []string{}
+	for _, k := range e.order {
+		parts = append(parts, "v_"+e.state[k])
+	}
+	if len(parts) == 1 {
+		return parts[0]
+	}
+	return "(" + strings.Join(parts, ", ") + ")"
+}
+
+// assigned collects the variables (identifiers and state expressions) a statement list assigns
+func (e *tenv) assigned(list []ast.Stmt, acc map[string]bool) {
+	for _, st := range list {
+		switch v := st.(type) {
+		case *ast.AssignStmt:
+			for _, l := range v.Lhs {
+				if name, ok := e.state[exprKey(l)]; ok {
+					acc[name] = true
+				} else if id, ok := l.(*ast.Ident); ok && v.Tok != token.DEFINE {
+					acc[id.Name] = true
+				}
+			}
+		case *ast.IncDecStmt:
+			if name, ok := e.state[exprKey(v.X)]; ok {
+				acc[name] = true
+			} else if id, ok := v.X.(*ast.Ident); ok {
+				acc[id.Name] = true
+			}
+		case *ast.IfStmt:
+			e.assigned(v.Body.List, acc)
+		}
+	}
+}
+
+func endsInReturn(list []ast.Stmt) bool {
+	if len(list) == 0 {
+		return false
+	}
+	_, ok := list[len(list)-1].(*ast.ReturnStmt)
+	return ok
 }
 
 type tableRef struct {
@@ -260,14 +326,37 @@ func (e *tenv) bad(format string, a ...any) (string, ty) {
 	return "0", untyped
 }
 
+// visibleConsts: the package-level constants that no local variable or parameter shadows
+func (e *tenv) visibleConsts() map[string]constant.Value {
+	shadow := false
+	for k := range e.vars {
+		if _, ok := e.consts[k]; ok {
+			shadow = true
+		}
+	}
+	if !shadow {
+		return e.consts
+	}
+	m := map[string]constant.Value{}
+	for k, v := range e.consts {
+		if _, ok := e.vars[k]; !ok {
+			m[k] = v
+		}
+	}
+	return m
+}
+
 func (e *tenv) expr(x ast.Expr, want ty) (string, ty) {
-	if cv, ok := evalConst(x, e.consts); ok {
+	if cv, ok := evalConst(x, e.visibleConsts()); ok {
 		if s, ok2 := constToCoq(cv); ok2 {
 			if want.name != "" && want.name != "untyped" {
 				return s, want
 			}
 			return s, untyped
 		}
+	}
+	if name, ok := e.state[exprKey(x)]; ok {
+		return "v_" + name, e.stateTy[name]
 	}
 	switch v := x.(type) {
 	case *ast.ParenExpr:
@@ -432,6 +521,9 @@ func exprString(x ast.Expr) string {
 // stmts translates a statement list ending in a return into nested lets.
 func (e *tenv) stmts(list []ast.Stmt, results []ty) string {
 	if len(list) == 0 {
+		if e.stateRet {
+			return e.stateTuple()
+		}
 		e.bad("missing return")
 		return "0"
 	}
@@ -443,7 +535,15 @@ func (e *tenv) stmts(list []ast.Stmt, results []ty) string {
 	}
 	switch v := s.(type) {
 	case *ast.ReturnStmt:
+		if e.stateRet && len(v.Results) == 0 {
+			return e.stateTuple()
+		}
 		parts := []string{}
+		if e.stateRet {
+			for _, k := range e.order {
+				parts = append(parts, "v_"+e.state[k])
+			}
+		}
 		for i, r := range v.Results {
 			want := untyped
 			if i < len(results) {
@@ -460,6 +560,35 @@ func (e *tenv) stmts(list []ast.Stmt, results []ty) string {
 		if len(v.Lhs) != 1 || len(v.Rhs) != 1 {
 			e.bad("multi-assign")
 			return "0"
+		}
+		if name, ok := e.state[exprKey(v.Lhs[0])]; ok {
+			t := e.stateTy[name]
+			rhs := v.Rhs[0]
+			// s.Table = make([]uint64, n): only the length is state
+			if call, ok := rhs.(*ast.CallExpr); ok && exprString(call.Fun) == "make" && len(call.Args) == 2 {
+				if ln, ok := e.state["len("+exprKey(v.Lhs[0])+")"]; ok {
+					x, _ := e.expr(call.Args[1], e.stateTy[ln])
+					fresh := ""
+					if fr, ok := e.state["fresh("+exprKey(v.Lhs[0])+")"]; ok {
+						fresh = "let v_" + fr + " := 1 in\n  "
+					}
+					return "let v_" + ln + " := " + e.stateTy[ln].wrap(x) + " in\n  " + fresh + e.stmts(rest, results)
+				}
+			}
+			var x string
+			if v.Tok == token.ASSIGN {
+				x, _ = e.expr(rhs, t)
+			} else {
+				ops := map[token.Token]token.Token{token.ADD_ASSIGN: token.ADD, token.SUB_ASSIGN: token.SUB, token.MUL_ASSIGN: token.MUL,
+					token.OR_ASSIGN: token.OR, token.AND_ASSIGN: token.AND, token.XOR_ASSIGN: token.XOR, token.SHL_ASSIGN: token.SHL, token.SHR_ASSIGN: token.SHR}
+				op, ok := ops[v.Tok]
+				if !ok {
+					e.bad("assign op %s", v.Tok)
+					return "0"
+				}
+				x, _ = e.expr(&ast.BinaryExpr{X: v.Lhs[0], Op: op, Y: rhs}, t)
+			}
+			return "let v_" + name + " := " + x + " in\n  " + e.stmts(rest, results)
 		}
 		id, ok := v.Lhs[0].(*ast.Ident)
 		if !ok {
@@ -559,6 +688,36 @@ func (e *tenv) stmts(list []ast.Stmt, results []ty) string {
 			return "0"
 		}
 		c, _ := e.expr(v.Cond, widths["bool"])
+		if !endsInReturn(v.Body.List) {
+			// the body falls through: the variables it assigns are merged
+			acc := map[string]bool{}
+			e.assigned(v.Body.List, acc)
+			var names []string
+			for n := range acc {
+				names = append(names, n)
+			}
+			sort.Strings(names)
+			if len(names) == 0 {
+				return e.stmts(rest, results)
+			}
+			tuple := "v_" + names[0]
+			pat := "v_" + names[0]
+			if len(names) > 1 {
+				ps := []string{}
+				for _, n := range names {
+					ps = append(ps, "v_"+n)
+				}
+				tuple = "(" + strings.Join(ps, ", ") + ")"
+				pat = "'" + tuple
+			}
+			sub := &tenv{vars: e.vars, consts: e.consts, funcs: e.funcs, tables: e.tables, fields: e.fields, used: e.used, state: e.state, stateTy: e.stateTy}
+			body := sub.stmtsThen(v.Body.List, tuple)
+			if sub.err != "" && e.err == "" {
+				e.err = sub.err
+			}
+			e.used = sub.used
+			return "let " + pat + " := (if " + c + " then " + body + " else " + tuple + ") in\n  " + e.stmts(rest, results)
+		}
 		// body must end in return
 		saved := map[string]ty{}
 		for k, t := range e.vars {
@@ -570,6 +729,20 @@ func (e *tenv) stmts(list []ast.Stmt, results []ty) string {
 	}
 	e.bad("statement %T", s)
 	return "0"
+}
+
+// stmtsThen translates a statement list that falls through, ending in the given expression
+func (e *tenv) stmtsThen(list []ast.Stmt, final string) string {
+	marker := &ast.ReturnStmt{Results: []ast.Expr{&ast.Ident{Name: "\x00final"}}}
+	saved := e.vars
+	e.vars = map[string]ty{}
+	for k, t := range saved {
+		e.vars[k] = t
+	}
+	e.vars["\x00final"] = untyped
+	out := e.stmts(append(append([]ast.Stmt{}, list...), marker), nil)
+	e.vars = saved
+	return strings.ReplaceAll(out, "v_\x00final", final)
 }
 
 func typeOf(x ast.Expr) (ty, bool) {
@@ -767,6 +940,64 @@ func main() {
 			funcs[k] = true
 			rep.Kernels = append(rep.Kernels, k)
 		}
+	}
+
+	// CountMinSketch.EnsureCapacity as a state transformer over (len(Table), SampleSize, BlockMask, Additions, fresh table?),
+	// and CountMinSketch.inc over the one table word it touches
+	if fd := findFunc(internal, "EnsureCapacity"); fd != nil && fd.Recv != nil && len(fd.Recv.List[0].Names) == 1 {
+		rv := fd.Recv.List[0].Names[0].Name
+		env := &tenv{vars: map[string]ty{}, consts: consts, funcs: funcs, stateRet: true,
+			state: map[string]string{"len(" + rv + ".Table)": "len", rv + ".SampleSize": "sample", rv + ".BlockMask": "mask", rv + ".Additions": "additions",
+				rv + ".Table": "tbl", "fresh(" + rv + ".Table)": "fresh"},
+			stateTy: map[string]ty{"len": widths["int"], "sample": widths["uint"], "mask": widths["uint"], "additions": widths["uint"], "fresh": widths["int"], "tbl": widths["int"]},
+			order:   []string{"len(" + rv + ".Table)", rv + ".SampleSize", rv + ".BlockMask", rv + ".Additions", "fresh(" + rv + ".Table)"}}
+		params := []string{"(v_len : Z)", "(v_sample : Z)", "(v_mask : Z)", "(v_additions : Z)"}
+		for _, f := range fd.Type.Params.List {
+			t, ok := typeOf(f.Type)
+			if !ok {
+				fail("EnsureCapacity: parameter type")
+			}
+			for _, n := range f.Names {
+				env.vars[n.Name] = t
+				params = append(params, "(v_"+n.Name+" : Z)")
+			}
+		}
+		body := env.stmts(fd.Body.List, nil)
+		if env.err != "" {
+			fail("EnsureCapacity: " + env.err)
+		} else {
+			kb.WriteString(fmt.Sprintf("Definition g_EnsureCapacity %s :=\n  let v_fresh := 0 in\n  %s.\n\n", strings.Join(params, " "), body))
+			rep.Kernels = append(rep.Kernels, "EnsureCapacity")
+		}
+	} else {
+		fail("EnsureCapacity not found")
+	}
+	if fd := findFunc(internal, "inc"); fd != nil && fd.Recv != nil && len(fd.Recv.List[0].Names) == 1 {
+		rv := fd.Recv.List[0].Names[0].Name
+		env := &tenv{vars: map[string]ty{}, consts: consts, funcs: funcs, stateRet: true,
+			state:   map[string]string{rv + ".Table[index]": "word"},
+			stateTy: map[string]ty{"word": widths["uint64"]},
+			order:   []string{rv + ".Table[index]"}}
+		params := []string{"(v_word : Z)"}
+		for _, f := range fd.Type.Params.List {
+			t, ok := typeOf(f.Type)
+			if !ok {
+				fail("inc: parameter type")
+			}
+			for _, n := range f.Names {
+				env.vars[n.Name] = t
+				params = append(params, "(v_"+n.Name+" : Z)")
+			}
+		}
+		body := env.stmts(fd.Body.List, []ty{widths["bool"]})
+		if env.err != "" {
+			fail("inc: " + env.err)
+		} else {
+			kb.WriteString(fmt.Sprintf("Definition g_inc %s :=\n  %s.\n\n", strings.Join(params, " "), body))
+			rep.Kernels = append(rep.Kernels, "inc")
+		}
+	} else {
+		fail("CountMinSketch.inc not found")
 	}
 
 	// timer wheel tables
